@@ -117,3 +117,9 @@ package timeinterval
 //@   props C15
 //@   requires tr != nil && unmarshal != nil
 //@   ensures [valid] result == nil ==> 0 <= tr.StartMinute && tr.StartMinute < tr.EndMinute && tr.EndMinute <= 24 * 60 + 60
+
+// ---- C15: the intervener evaluates exactly the named intervals it was built from (the configuration's).
+//@ func NewIntervener
+//@   props C15 C17
+//@   ensures [over-the-given-intervals] result != nil && fresh(result) && result.intervals == ti
+//@   assigns nothing
